@@ -26,39 +26,49 @@ Open Scope Z_scope.
    starting from any memo state *)
 Theorem C08_order : forall md5 m a b, good a -> veq a b -> enc_ops md5 m a = enc_ops md5 m b.
 Proof. intros md5 m a b G H. exact (enc_order md5 a b G H m). Qed.
+Print Assumptions C08_order.
 
 Theorem C08_order_top : forall md5 a b, good a -> veq a b -> enc_top md5 a = enc_top md5 b.
 Proof. exact enc_top_order. Qed.
+Print Assumptions C08_order_top.
 
 (* hence the digest, for md5 as for any other function applied to the stream (sha1) *)
 Theorem C08_order_digest : forall md5 (H : list byte -> list byte) a b, good a -> veq a b ->
   option_map H (digest_input md5 a) = option_map H (digest_input md5 b).
 Proof. intros md5 H a b G E. unfold digest_input. rewrite (enc_top_order md5 a b G E). reflexivity. Qed.
+Print Assumptions C08_order_digest.
 
 Theorem C08_order_dict : forall md5 items items', good (VDict items) -> Permutation items items' ->
   enc_top md5 (VDict items) = enc_top md5 (VDict items').
 Proof. intros md5 items items' G P. exact (enc_top_order md5 _ _ G (veq_dict_perm _ _ P)). Qed.
+Print Assumptions C08_order_dict.
 
 Theorem C08_order_set : forall md5 l l', good (VSet l) -> Permutation l l' ->
   enc_top md5 (VSet l) = enc_top md5 (VSet l').
 Proof. intros md5 l l' G P. exact (enc_top_order md5 _ _ G (veq_set_perm _ _ P)). Qed.
+Print Assumptions C08_order_set.
 
 Theorem C08_order_frozenset : forall md5 l l', good (VFrozenSet l) -> Permutation l l' ->
   enc_top md5 (VFrozenSet l) = enc_top md5 (VFrozenSet l').
 Proof. intros md5 l l' G P. exact (enc_top_order md5 _ _ G (veq_fset_perm _ _ P)). Qed.
+Print Assumptions C08_order_frozenset.
 
 (* the universe is not empty: distinct ints / str / bytes are admissible keys *)
 Theorem C08_universe_int_keys : forall zs, NoDup zs -> keys_ok (map VInt zs).
 Proof. exact ints_keys_ok. Qed.
+Print Assumptions C08_universe_int_keys.
 Theorem C08_universe_str_keys : forall l, NoDup l -> keys_ok (map VStr l).
 Proof. exact strs_keys_ok. Qed.
+Print Assumptions C08_universe_str_keys.
 Theorem C08_universe_bytes_keys : forall l, NoDup l -> keys_ok (map VBytes l).
 Proof. exact bytes_keys_ok. Qed.
+Print Assumptions C08_universe_bytes_keys.
 
 (* non-vacuity: a nested value of the universe, a different iteration order of it, one stream *)
 Example C08_order_example : good ex_v /\ veq ex_v ex_v' /\ ex_v <> ex_v' /\
   forall md5, enc_top md5 ex_v = enc_top md5 ex_v' /\ enc_top md5 ex_v <> None.
 Proof. exact (conj ex_v_good (conj ex_v_veq (conj ex_v_neq ex_v_stream))). Qed.
+Print Assumptions C08_order_example.
 
 (* ---------------------------------------------------------------- type discrimination / injectivity *)
 
@@ -69,14 +79,17 @@ Proof. exact (conj ex_v_good (conj ex_v_veq (conj ex_v_neq ex_v_stream))). Qed.
 Theorem C08_inj_sorted : forall md5 a b s, good a -> good b -> fits md5 a -> fits md5 b ->
   enc_top md5 a = Some s -> enc_top md5 b = Some s -> veq a b.
 Proof. exact enc_top_inj. Qed.
+Print Assumptions C08_inj_sorted.
 
 (* non-vacuity of the hypotheses of C08_inj_sorted *)
 Example C08_inj_example : good inj_ex /\ forall md5, fits md5 inj_ex.
 Proof. exact inj_example. Qed.
+Print Assumptions C08_inj_example.
 
 (* values of the universe always hash (no exception) *)
 Theorem C08_total : forall md5 a, good a -> enc_top md5 a <> None.
 Proof. exact enc_top_total. Qed.
+Print Assumptions C08_total.
 
 Theorem C08_types_scalars : forall md5,
   enc_top md5 (VInt 1) <> enc_top md5 (VFloat float_one) /\
@@ -87,9 +100,11 @@ Theorem C08_types_scalars : forall md5,
   enc_top md5 (VFloat 0) <> enc_top md5 (VFloat 9223372036854775808) /\
   enc_top md5 (VInt 0) <> enc_top md5 VNone.
 Proof. exact types_1_1f_true. Qed.
+Print Assumptions C08_types_scalars.
 
 Theorem C08_types_str_bytes : forall md5 s, enc_top md5 (VStr s) <> enc_top md5 (VBytes s).
 Proof. exact types_str_bytes. Qed.
+Print Assumptions C08_types_str_bytes.
 
 Theorem C08_types_empties : forall md5,
   let e := enc_top md5 in
@@ -97,20 +112,24 @@ Theorem C08_types_empties : forall md5,
   e (VList []) <> e (VDict []) /\ e (VDict []) <> e (VSet []) /\ e (VSet []) <> e (VFrozenSet []) /\
   e (VStr []) <> e (VTuple []) /\ e (VStr []) <> e VNone.
 Proof. exact types_empties. Qed.
+Print Assumptions C08_types_empties.
 
 (* set vs frozenset with the same elements, for every element list (no hypothesis) *)
 Theorem C08_types_set_frozenset : forall md5 l s,
   enc_top md5 (VSet l) = Some s -> enc_top md5 (VFrozenSet l) <> Some s.
 Proof. exact types_set_frozenset. Qed.
+Print Assumptions C08_types_set_frozenset.
 
 (* list vs tuple with the same items; a value never collides with one of another kind *)
 Theorem C08_types_list_tuple : forall md5 l s, good (VList l) -> fits md5 (VList l) -> fits md5 (VTuple l) ->
   enc_top md5 (VList l) = Some s -> enc_top md5 (VTuple l) <> Some s.
 Proof. exact types_list_tuple. Qed.
+Print Assumptions C08_types_list_tuple.
 
 Theorem C08_types_kind : forall md5 a b s, good a -> good b -> fits md5 a -> fits md5 b ->
   enc_top md5 a = Some s -> enc_top md5 b = Some s -> same_kind a b.
 Proof. exact enc_top_same_kind. Qed.
+Print Assumptions C08_types_kind.
 
 (* ---------------------------------------------------------------- refutations (known findings) *)
 
@@ -124,10 +143,12 @@ Theorem C08_F12_partial_order_refuted : exists l l', Permutation l l' /\
   (forall md5, enc_top md5 (VDict (map (fun k => (k, VNone)) l)) <> enc_top md5 (VDict (map (fun k => (k, VNone)) l'))) /\
   (forall md5, enc_top md5 (VSet l) <> None).
 Proof. exists f12_l, f12_l'. exact f12_witness. Qed.
+Print Assumptions C08_F12_partial_order_refuted.
 
 (* the witness is outside the universe exactly because subset is not total on it *)
 Theorem C08_F12_outside_universe : ~ key_order_ok f12_l.
 Proof. exact f12_not_ordered. Qed.
+Print Assumptions C08_F12_outside_universe.
 
 (* F13.  Full statement, FALSE: forall a b, enc_top md5 a = enc_top md5 b <> None -> veq a b.
    In the mixed-kind fallback the keys are replaced by their digests: {1:'x','a':'y'} and the dict
@@ -139,3 +160,4 @@ Proof.
   exact (conj (proj1 f13_witness) (conj (proj1 (proj2 f13_witness))
         (conj (proj1 (proj2 (proj2 f13_witness))) (proj1 (proj2 (proj2 (proj2 f13_witness))))))).
 Qed.
+Print Assumptions C08_F13_masquerade_refuted.
